@@ -273,6 +273,25 @@ impl MValue {
         }
     }
 
+    /// From a tree read by the harness CBOR reader (floats widened to f64 bits).
+    pub fn from_item(it: &Item) -> MValue {
+        match &it.kind {
+            Kind::UInt(v) => MValue::Int(*v as i128),
+            Kind::NInt(v) => MValue::Int(-1 - (*v as i128)),
+            Kind::Bytes(b) => MValue::Bytes(b.clone()),
+            Kind::Text(t) => MValue::Text(String::from_utf8_lossy(t).into_owned()),
+            Kind::Array(a) => MValue::Array(a.iter().map(MValue::from_item).collect()),
+            Kind::Map(m) => MValue::Map(m.iter().map(|(k, v)| (MValue::from_item(k), MValue::from_item(v))).collect()),
+            Kind::Tag(t, b) => MValue::Tag(*t, Box::new(MValue::from_item(b))),
+            Kind::Simple(20) => MValue::Bool(false),
+            Kind::Simple(21) => MValue::Bool(true),
+            Kind::Simple(_) => MValue::Null,
+            Kind::Float(8, bits) => MValue::Float(*bits),
+            Kind::Float(4, bits) => MValue::Float((f32::from_bits(*bits as u32) as f64).to_bits()),
+            Kind::Float(_, _) => MValue::Float(0),
+        }
+    }
+
     pub fn to_item(&self) -> Item {
         match self {
             MValue::Int(i) => Item::int(*i),
